@@ -18,10 +18,14 @@ type unitSvc struct {
 	note   string            // non-empty: not usable
 }
 
+// sameStrings: equal as multisets (the order in which a processor registers its functions is immaterial)
 func sameStrings(a, b []string) bool {
 	if len(a) != len(b) {
 		return false
 	}
+	a, b = append([]string{}, a...), append([]string{}, b...)
+	sort.Strings(a)
+	sort.Strings(b)
 	for i := range a {
 		if a[i] != b[i] {
 			return false
@@ -50,7 +54,7 @@ func matchServices(u *batch.UnitInfo, table []*svcInfo, scanned []*goService) []
 			}
 		}
 		if us.gs == nil {
-			us.note = fmt.Sprintf("no New*Processor registers exactly %v (in this order)", own)
+			us.note = fmt.Sprintf("no New*Processor registers exactly the functions %v", own)
 			continue
 		}
 		gs := us.gs
